@@ -161,6 +161,8 @@ func (k Keeper) AllocateConsumerRewards(ctx sdk.Context, consumerId string, allo
 				"chainId", chainId,
 				"error", err.Error(),
 			)
+			// nothing was moved: keep the allocation untouched (the caller drops the cached context)
+			return types.ConsumerRewardsAllocation{}, err
 		}
 		k.Logger(ctx).Info(
 			"allocated ICS rewards to community pool",
